@@ -165,6 +165,22 @@ Example C08_short_streams :
   show (read_all_lines (mk_reader [10] [])) = show (IoDone [[]]).
 Proof. exact short_streams_decode. Qed.
 
+(* malformed UTF-16 streams (a byte 0x0A at an odd offset or with a non-zero
+   partner byte, odd total length) and texts whose code units contain a byte
+   0x0A are functions of their bytes like every other stream: byte by byte,
+   in uneven chunks, with Interrupted *)
+Example C08_utf16_any_delivery :
+  let L1 := show (IoDone [[97; 2560; 25088; 2659]]) in
+  let L2 := show (IoDone (lines_of_text d5_text2)) in
+  show (read_all_lines (mk_reader (bom_be ++ [0; 97; 10; 0; 98; 0; 10; 99]) [])) = L1 /\
+  show (read_all_lines (mk_reader (bom_be ++ [0; 97; 10; 0; 98; 0; 10; 99]) (repeat (Chunk 1) 12))) = L1 /\
+  show (read_all_lines (mk_reader (bom_be ++ [0; 97; 10; 0; 98; 0; 10; 99]) [Chunk 5; Interrupted; Chunk 2; Chunk 3])) = L1 /\
+  show (read_all_lines (mk_reader (bom_le ++ utf16le_enc d5_text2) [])) = L2 /\
+  show (read_all_lines (mk_reader (bom_le ++ utf16le_enc d5_text2) (repeat (Chunk 1) 40))) = L2 /\
+  show (read_all_lines (mk_reader (bom_le ++ utf16le_enc d5_text2) (repeat (Chunk 3) 14))) = L2 /\
+  show (read_all_lines (mk_reader (bom_be ++ utf16be_enc d5_text2) [Chunk 3; Interrupted; Chunk 2; Chunk 1; Chunk 5])) = L2.
+Proof. vm_compute. repeat split. Qed.
+
 (* the former D6 input (UTF-16LE `a` LF cut after the low byte of the line
    feed): the same line at every chunking, with Interrupted at the extra-byte
    read of read_line *)
